@@ -349,9 +349,9 @@ def _check(prop, tier, seed, repo, vacuity=True, update_baseline=False):
     for test in ([run_native] if isinstance(run_native, str) else (run_native or [])):
         try:
             import native_run
-            cexn = native_run.find_cex(test, repo)
+            cexn = native_run.find_cex(test, repo, deep=(tier == "thorough"))
             _NATIVE_CACHE[test] = cexn
-            one = {"test": test, "bound": native_run.BOUNDS.get(test, ""), "status": "FAILS" if cexn else "no failing input in the enumerated family"}
+            one = {"test": test, "bound": native_run.BOUNDS.get(test, "") + (" [thorough tier: the larger family, see DEEP_BOUNDS]" if tier == "thorough" and test in native_run.DEEP_BOUNDS else ""), "status": "FAILS" if cexn else "no failing input in the enumerated family"}
             if cexn:
                 violations.append({"unit": "native", "function": test, "engine": "native-bounded",
                                    "errors": [{"message": "bounded native enumeration found failing inputs (run because: %s)" % (undecided[0][:300] if undecided else "thorough tier"), "text": "; ".join(cexn["failing_inputs"][:3]),
